@@ -632,6 +632,14 @@ def select_head(f, h):
 def rule_choosers(ctx):
     fx = ctx.facts
     b = body_of(fx, "choose_fresh_variable_names")
+    check_chooser(ctx, b)
+    rule_globals(ctx)
+
+
+def check_chooser(ctx, b, group="FRESH", tag="chooser"):
+    """the name chooser `choose_fresh_variable_names(variables, variant, arity)`: candidates are the prefix (only when free) and prefix + number;
+    a candidate is redrawn while it is taken OR already handed out; `taken` holds the name of every variable of the argument"""
+    fx = ctx.facts
     # the while loop re-draws a candidate as long as it is taken or already chosen
     conds = []
     for n in hq.nodes(b["body"], "Loop"):
@@ -656,13 +664,13 @@ def rule_choosers(ctx):
                         or_ = [x for x in walk(c["cond"]) if x.get("k") == "Binary" and x.get("op") == "Or"]
                         in_while.append("||" if or_ else "?")
                     break
-    ctx.add("FRESH", "chooser:loop", sorted(x for x in in_while if x != "||") == ["fresh_vars", "taken_vars"] and "||" in in_while, ctx.site(b),
+    ctx.add(group, tag + ":loop", sorted(x for x in in_while if x != "||") == ["fresh_vars", "taken_vars"] and "||" in in_while, ctx.site(b),
             "a candidate is redrawn while it is in taken_vars OR in fresh_vars (names already handed out): %s" % in_while)
     # taken_vars holds the name of every element of `variables`
     tv = ev.bound.get("taken_vars", [])
     last = ev.last_env.get("taken_vars", [None])[-1]
     ok = last is not None and "each" in key(last) and "$variables" in key(last) and "push" in key(last) and ".name" in key(last) or (last is not None and "'name'" in key(last))
-    ctx.add("FRESH", "chooser:taken-all", bool(ok), ctx.site(b), "taken_vars receives the name of every variable of the `variables` argument: %s" % rn(ftpl.NF().gen(last) if last else None))
+    ctx.add(group, tag + ":taken-all", bool(ok), ctx.site(b), "taken_vars receives the name of every variable of the `variables` argument: %s" % rn(ftpl.NF().gen(last) if last else None))
     # the plain variant is only used when not taken
     m = [n for n in walk(b["body"]) if n.get("k") == "Match" and any(x.get("k") == "MethodCall" and x["method"] == "contains" for x in walk(n["scrut"]))]
     okm = False
@@ -674,12 +682,17 @@ def rule_choosers(ctx):
             pushes_f = [x for x in walk(f_arm["body"]) if x.get("k") == "MethodCall" and x["method"] == "push"]
             pushes_t = [x for x in walk(t_arm["body"]) if x.get("k") == "MethodCall" and x["method"] == "push"]
             okm = len(pushes_f) == 1 and not pushes_t and "taken_vars" in hq.render(m[0]["scrut"])
-    ctx.add("FRESH", "chooser:plain-variant", okm, ctx.site(b), "the undecorated prefix itself is handed out only when taken_vars does not contain it")
+    ctx.add(group, tag + ":plain-variant", okm, ctx.site(b), "the undecorated prefix itself is handed out only when taken_vars does not contain it")
     # candidates are prefix + number
     cands = ev.bound.get("candidate", [])
-    ctx.add("FRESH", "chooser:candidate-shape", any("push_str" in key(c) and "$variant" in key(c) for c in ev.last_env.get("candidate", []) + cands), ctx.site(b),
+    ctx.add(group, tag + ":candidate-shape", any("push_str" in key(c) and "$variant" in key(c) for c in ev.last_env.get("candidate", []) + cands), ctx.site(b),
             "every candidate is the prefix followed by a decimal number")
 
+
+
+def rule_globals(ctx):
+    from ..facts import walk
+    fx = ctx.facts
     # globals:  V<m+1> .. V<m+n>,  m = max number of a program variable matching ^V[0-9]*$,  n = max head arity
     g = body_of(fx, "choose_fresh_global_variables")
     ev = sym.Eval(fx, inline_depth=0)
